@@ -171,6 +171,41 @@ type savedAlloc struct {
 	al  *ssa.Alloc
 	ref Term
 	val Term
+	// a map made by this function and used only as a map (see privateMap): domain, values and cardinality
+	mk             *ssa.MakeMap
+	dom, mval, crd Term
+}
+
+// privateMap: the map made by mk is only ever updated, looked up, ranged over, measured or deleted from by this
+// function itself - it is never stored, passed, returned, captured or merged into a phi - so no other code can
+// hold a reference to it, and a call with unknown effect cannot change its content.
+func privateMap(mk *ssa.MakeMap) bool {
+	refs := mk.Referrers()
+	if refs == nil {
+		return false
+	}
+	for _, r := range *refs {
+		switch x := r.(type) {
+		case *ssa.DebugRef:
+		case *ssa.MapUpdate:
+			if x.Map != ssa.Value(mk) || x.Key == ssa.Value(mk) || x.Value == ssa.Value(mk) {
+				return false
+			}
+		case *ssa.Lookup:
+			if x.X != ssa.Value(mk) || x.Index == ssa.Value(mk) {
+				return false
+			}
+		case *ssa.Range:
+		case *ssa.Call:
+			b, ok := x.Call.Value.(*ssa.Builtin)
+			if !ok || b.Name() != "len" && !(b.Name() == "delete" && x.Call.Args[0] == ssa.Value(mk) && x.Call.Args[1] != ssa.Value(mk)) {
+				return false
+			}
+		default:
+			return false
+		}
+	}
+	return true
 }
 
 // saveOwned records the content of the allocations that have not leaked on this path.
@@ -178,6 +213,14 @@ func (u *Unit) saveOwned(st *State) []savedAlloc {
 	var out []savedAlloc
 	for _, b := range u.fn.Blocks {
 		for _, ins := range b.Instrs {
+			if mk, ok := ins.(*ssa.MakeMap); ok && privateMap(mk) {
+				if ref, ok := st.vals[mk]; ok {
+					mc := u.mapComps(mk.Type())
+					out = append(out, savedAlloc{mk: mk, ref: ref, dom: u.define(st, "ownedDom", u.mapDom(st, mc, ref)),
+						mval: u.define(st, "ownedVal", u.mapVal(st, mc, ref)), crd: u.define(st, "ownedCard", u.mapCard(st, mc, ref))})
+				}
+				continue
+			}
 			al, ok := ins.(*ssa.Alloc)
 			if !ok || st.leaked[al] {
 				continue
@@ -189,12 +232,12 @@ func (u *Unit) saveOwned(st *State) []savedAlloc {
 			elem := al.Type().(*types.Pointer).Elem()
 			switch elem.Underlying().(type) {
 			case *types.Struct:
-				out = append(out, savedAlloc{al, ref, u.define(st, "owned", u.gather(st, elem, ref))})
+				out = append(out, savedAlloc{al: al, ref: ref, val: u.define(st, "owned", u.gather(st, elem, ref))})
 			case *types.Array:
 				// not kept
 			default:
 				if l, ok := st.locs[al]; ok {
-					out = append(out, savedAlloc{al, ref, u.define(st, "owned", u.loadLoc(st, l))})
+					out = append(out, savedAlloc{al: al, ref: ref, val: u.define(st, "owned", u.loadLoc(st, l))})
 				}
 			}
 		}
@@ -204,6 +247,11 @@ func (u *Unit) saveOwned(st *State) []savedAlloc {
 
 func (u *Unit) restoreOwned(st *State, saved []savedAlloc) {
 	for _, s := range saved {
+		if s.mk != nil {
+			mc := u.mapComps(s.mk.Type())
+			st.assume(and(eq(u.mapDom(st, mc, s.ref), s.dom), eq(u.mapVal(st, mc, s.ref), s.mval), eq(u.mapCard(st, mc, s.ref), s.crd)))
+			continue
+		}
 		elem := s.al.Type().(*types.Pointer).Elem()
 		if _, ok := elem.Underlying().(*types.Struct); ok {
 			st.assume(eq(u.gather(st, elem, s.ref), s.val))
